@@ -7,7 +7,8 @@ import traceback
 ROOT = os.path.dirname(os.path.dirname(os.path.abspath(__file__)))
 sys.path.insert(0, ROOT)
 REPO_SRC = os.environ.get("HASHSTORE_SRC", "/repo/src/hashstore")
-SOURCES = {"filehashstore": os.path.join(REPO_SRC, "filehashstore.py")}
+SOURCES = {"filehashstore": os.path.join(REPO_SRC, "filehashstore.py"),
+           "hashstoreclient": os.path.join(REPO_SRC, "hashstoreclient.py")}
 
 
 def load():
